@@ -81,7 +81,7 @@ fn check<const N: usize>() {
 }
 
 #[kani::proof]
-#[kani::unwind(7)]
-fn create_template_len4() {
-  check::<4>();
+#[kani::unwind(6)]
+fn create_template_len3() {
+  check::<3>();
 }
